@@ -54,6 +54,9 @@ def plan(ctx):
     cases += [("index", i) for i in range(400 * k)]
     cases += [("reduce", i) for i in range(150 * k)]
     cases += [("pack", i) for i in range(150 * k)]
+    if ctx.thorough:      # larger tables live in their own kinds so that a replay never depends on the tier
+        for kind, cnt in (("wrap_big", 150), ("phase_big", 150), ("index_big", 400), ("reduce_big", 150), ("pack_big", 100)):
+            cases += [(kind, i) for i in range(cnt)]
     return cases
 
 
@@ -61,7 +64,12 @@ def plan(ctx):
 # table generator (declared description -> real JokerSamples)
 
 
+BIG = {"on": False}
+
+
 def gen_table(rng, n=None, need_K=False):
+    if BIG["on"]:
+        n = int(rng.integers(200, 3000))
     if n is None:
         n = int(rng.choice([1, 2, 3, int(rng.integers(1, 12)), int(rng.integers(1, 201))]))
     p = int(rng.integers(1, 4))
@@ -542,19 +550,29 @@ def reduce_case(ctx, g, rng):
             if dup:
                 ctx.count("reduce:median_duplicated")
             ctx.evaluated(rel, (g["kind"], g["index"]) if dup or n % 2 == 0 else None, sample=dict(n=n, candidates=cands[:5]))
+            differs = None
             if why is None:
                 member = [r for r in range(n) if rows_problem(snap, d, [r]) is None]
                 if not member:
                     why = "the returned row is not a row of the table"
-                elif not any(r in cands for r in member):
-                    pv = core.unbits(dict((k, b) for k, _, b in snap["cols"])["P"][0])
-                    why = (f"returned row {member[0]} has P = {pv!r}, but the floor(N/2)-th smallest period is {srt[n // 2]!r} "
-                           f"(rows {cands[:5]})")
+                else:
+                    pv = cP["vals"][member[0]]
+                    below = sum(1 for v in cP["vals"] if v < pv)
+                    above = sum(1 for v in cP["vals"] if v > pv)
+                    if 2 * below > n or 2 * above > n:      # not a median of the periods in any convention
+                        why = (f"returned row {member[0]} has P = {pv!r}: {below} periods are smaller and {above} larger, "
+                               f"so it is not a median of the {n} periods (floor(N/2)-th smallest is {srt[n // 2]!r})")
+                    elif not any(r in cands for r in member):
+                        differs = (f"returned row {member[0]} (P = {pv!r}) is a median row but not the floor(N/2)-th order "
+                                   f"statistic {srt[n // 2]!r} the model prescribes")
             if why is not None:
                 ctx.violation(rel, g, inp, dict(meta=snap["meta"], row={k: core.unbits(b[0]) for k, _, b in snap["cols"] if b}),
                               dict(candidates=cands, value=srt[n // 2], meta=declared_meta(d)),
-                              "median_period must return an actual member row (the row whose P is the floor(N/2)-th order "
-                              "statistic) and keep units and metadata: " + why, tags=dict(op="median_period"))
+                              "median_period must return an actual member row with a median period and keep units and "
+                              "metadata: " + why, tags=dict(op="median_period"))
+            elif differs is not None:
+                ctx.mismatch(rel, g, inp, dict(row={k: core.unbits(b[0]) for k, _, b in snap["cols"] if b}),
+                             dict(candidates=cands, value=srt[n // 2]), differs, tags=dict(op="median_period"))
             continue
         names = [c["name"] for c in d["cols"]]
         m = ctx.model({"op": "samples.reduce", "cols": [core.bits_list(c["vals"]) for c in d["cols"]]})
@@ -702,6 +720,8 @@ def run_case(ctx, g):
     kind, index = g["kind"], g["index"]
     ctx.seed = g.get("seed", ctx.seed)
     rng = ctx.case_rng(kind, index)
+    BIG["on"] = kind.endswith("_big")
+    kind = kind[:-4] if BIG["on"] else kind
     if kind == "wrap":
         wrap_case(ctx, g, rng)
     elif kind == "phase":
